@@ -1,5 +1,5 @@
 """Per-property registration data; bin/mkmanifest turns it into MANIFEST.json."""
-HOOK_COMMITS = []
+HOOK_COMMITS = ["5816b2c"]
 CHECKS = {
  "C16": dict(
     category="model_checking",
@@ -61,6 +61,138 @@ CHECKS["C05"] = dict(
     design_ref="DESIGN.md section 6 C05",
     note=QR_TRUST + " Replacement values are sampled. Texts are compared through CRC-32 digests computed by the harness.",
     technique="fault enumeration driven by TLA+ placement/block-structure specs; TLC validates every script and outcome")
+
+CHECKS["C20"] = dict(
+    category="model_checking",
+    text="spec/RunLength.tla defines run recording (forward / reverse) declaratively over pixel rows and the pattern-match score as the exact "
+         "fraction sum|c_i*P - p_i*T| / (P*T) with the two +Inf cases. TLC model-checks a pixel-step recording automaton against the "
+         "declarative definition on every row of length <= 8 (thorough <= 11) x every start x 1..4(5) counters, and the score laws "
+         "(under-resolved => +Inf, exact multiple => 0, scale invariance, zero iff proportional) over all counter vectors with small entries "
+         "for every 3/4/5-element pattern. Both models print their cases with expected outcomes; these plus seeded rows of every length "
+         "0..300 and seeded vectors (entries 0..40) for every pattern family are executed on the real RecordPattern / RecordPatternInReverse / "
+         "PatternMatchVariance, and Trace_RunLength judges every call in exact integer arithmetic (k = round(r*den) = num, residual <= 1e-9*den, isInf).",
+    design_ref="DESIGN.md section 6 C20",
+    note="Trusted: TLC, RunLength.tla, the harness projection of float64 to round(r*den)+residual. A deviation exactly equal to the allowance "
+         "is accepted either way unless the arithmetic is exact in binary. start >= 0, equal-length counters/pattern.",
+    technique="TLA+ spec; TLC design model checking + TLC-generated cases replayed on real code + TLC trace validation")
+CHECKS["C19"] = dict(
+    category="model_checking",
+    text="spec/Geom.tla specifies, in exact integer arithmetic, the check-and-nudge contract (one rule instantiated for all four edges, two "
+         "passes), projective maps as integer 3x3 matrices and grid sampling as 'pixel under the truncated transformed cell centre after "
+         "nudging, NotFound otherwise'. TLC model-checks a nudge automaton on all rows of <= 2 arbitrary points and all equally spaced lines "
+         "of <= 4(8) points with half-pixel coordinates around every edge (automaton = functional form, x/y and reversal symmetry, "
+         "idempotence), and that SquareToQuad maps the unit square onto every convex quadrilateral with small integer corners. All MC rows "
+         "and seeded lines go to the real GridSampler_checkAndNudgePoints; TLC-generated exact rational points for random quadrilateral "
+         "pairs go to QuadrilateralToQuadrilateral(...).TransformPoints (judged at 1e-6 relative); SampleGrid / SampleGridWithTransform are "
+         "judged bit by bit for dyadic affine maps (exact, grids 1..177) and integer-pixel perspective maps.",
+    design_ref="DESIGN.md section 6 C19",
+    note="Trusted: TLC, Geom.tla, harness fixed-point projection. Truncation toward zero; a coordinate in (-2,-1) may be nudged or refused. "
+         "'Never reads outside' is observed through wrong bits or panics. Perspective sample events within 1e-6 of a nudge threshold are skipped.",
+    technique="TLA+ spec in exact integer/rational arithmetic; TLC design model checking + TLC-generated cases + TLC trace validation of real calls")
+CHECKS["C17"] = dict(
+    category="model_checking",
+    text="spec/Lum.tla models a luminance source as a window (left, top, w, h, inversion) on a 2-D grey array with Crop classified by the "
+         "property's wording, Invert, the counter-clockwise quarter turn, the global-histogram binariser as exact integer arithmetic and the "
+         "bilevel law black == (lum == 0) or NotFound for both binarisers. TLC model-checks the view algebra exhaustively on small windows "
+         "(four quarter turns, double inversion, crop = offset, crop of crop, views stay inside their base) and the binariser model on all small "
+         "bilevel rows / images; generates all histories of two view operations on tiny windows and simulated histories of six, replayed on RGB, "
+         "PlanarYUV and ten Go image types; and validates every recorded call (GetRow, GetMatrix, Crop, Invert, RotateCounterClockwise, "
+         "GetBlackRow, GetBlackMatrix, BinaryBitmap.Crop/Rotate, cached matrix) pixel-wise in Trace_Lum. Thorough: all bilevel sizes 1..60 x 1..60.",
+    design_ref="DESIGN.md section 6 C17",
+    note="Trusted: TLC, Lum.tla, harness projection (GetMatrix rows, row checksums, BitMatrix chunks). Opaque grey pixels only; crop extents >= 1. "
+         "On non-bilevel images >= 40x40 the hybrid method is checked only for dimensions and absence of panics.",
+    technique="TLA+ window/array model + exact integer model of the global-histogram binariser; TLC model checking, TLC-generated histories, TLC trace validation")
+CHECKS["C14"] = dict(
+    category="model_checking",
+    text="spec/Render.tla defines out = max(req, n+q), the module size as the largest integer with (n+q)*s <= out (2-D: the smaller axis), "
+         "pad = floor((out - n*s)/2) and the pixel -> module map for QR (margin on every side), 1-D (margin shared, full-height bars) and Data "
+         "Matrix (requested size if the symbol fits in both directions, else the bare symbol). TLC model-checks the arithmetic lemmas for every "
+         "n <= 40, q <= 40, req <= 400, generates requested sizes on / just below / just above every multiple of (n+q) from module counts "
+         "measured on the real encoders, and validates every Writer.Encode call: the BitMatrix is read through Bounds/ColorModel/At as run-length "
+         "rows and TLC recomputes size, scale, padding and every image row from the encoder-level module matrix. Exhaustive small squares for QR v1 "
+         "and EAN-8; boundary and seeded sizes up to 8x natural for all 11 writers with margins 0..20.",
+    design_ref="DESIGN.md section 6 C14",
+    note="Trusted: TLC, Render.tla, harness projection (image.Image view -> run-length rows). Requested sizes >= 0, margins 0..20; documented default "
+         "margins expected without a hint. Matrix correctness itself is C07/C08.",
+    technique="TLA+ rendering-geometry spec; TLC model checking of the lemmas, TLC-generated boundary sizes, TLC trace validation of Writer.Encode images")
+CHECKS["C04"] = dict(
+    category="model_checking",
+    text="MC_GF makes TLC prove, per field (0x11D/256 base 0; 0x12D/256, 0x13/16, 0x43/64, 0x409/1024, 0x1069/4096 base 1), that alpha = 2 is "
+         "primitive, log inverts exp, and table product / inverse / exp(log) equal carry-less multiplication mod the primitive polynomial for "
+         "every pair (quick: all pairs of five fields + 384 rows of GF(4096); thorough: all 17.96 M pairs). MC_RS checks tiny GF(16) codes "
+         "exhaustively (systematic, zero syndromes, minimum distance r+1, unique nearest codeword up to capacity). TLC generates every error "
+         "pattern of small weight on short codes of all six fields; Trace_RS judges the real code: Exp/Log/Inverse for all elements, Multiply rows, "
+         "Encode = data prefix + zero syndromes, Encode -> corrupt -> Decode returns the sent word for <= floor(r/2) errors, over all QR, Data "
+         "Matrix and Aztec block shapes (sampled for long codes, exhaustive for the short ones).",
+    design_ref="DESIGN.md section 6 C04",
+    note="Trusted: TLC, CommunityModules Bitwise/Json, field parameters in GF.tla. Error sets beyond floor(r/2) carry no demand. Log is accepted as any "
+         "exponent e with alpha^e = x.",
+    technique="TLA+ definition of GF(2^m) and RS codes; TLC model checking of tables and tiny codes + TLC-generated error patterns + trace validation of the real codec")
+CHECKS["C10"] = dict(
+    category="model_checking",
+    text="OneD/Check specify the check characters from the standards (UPC/EAN mod 10 - UPC-E on the UPC-A expansion -, Code 128 mod 103, Code 93 C/K "
+         "mod 47, EAN-2/EAN-5 parity), symbol construction from the standards' tables and an exact module-level reference reader. TLC checks the "
+         "arithmetic laws exhaustively (single substitution changes every weighted sum; Expand(Suppress(u)) = u for every zero-suppressible UPC-A "
+         "number and all 2 000 000 UPC-E numbers; add-on acceptance iff parity matches), builds the symbol of a seeded number and all its "
+         "single-character substitutions that keep the original check characters, and judges the real readers' answers on paintings of those "
+         "symbols (allowed: the forward reading, else the reversed row at orientation 180, else an error) and the real writers' acceptance. "
+         "Writer acceptance is exhaustive over all UPC-E and EAN-8 payloads in the thorough tier.",
+    design_ref="DESIGN.md section 6 C10",
+    note="Trusted: TLC, OneD/OneDTables/Check specs, harness painting. Code 128 / Code 93 tables are pinned from the baseline after structural "
+         "validation. Readers observed on clean renderings. An answer from the reversed row with a verifying check digit is tolerated (see DESIGN).",
+    technique="TLA+ reference semantics of 1-D check characters; TLC model checking of checksum laws + TLC-generated fault-injected symbols + trace validation")
+CHECKS["C03"] = dict(
+    category="model_checking",
+    text="OneDRT specifies, per symbology, which contents a writer must accept / refuse, the canonical text, the matching reader's domain and "
+         "reference encoders (Code 128 with sets A/B/C, switches and SHIFT; Code 39 / 93 full ASCII). TLC checks Read(Symbol(c)) = Canonical(c) "
+         "exhaustively on small scopes (every ASCII string <= 2 and class strings of length 3 for Code 39/93, Code 128 class strings <= 4(6) plus "
+         "digit runs, ITF lengths 2..16, all Codabar guard pairs, UPC/EAN families with every wrong check digit refused), builds reference-encoded "
+         "symbols the real readers must read, and validates recorded write -> read round trips of the real code across all 9 symbologies (sizes, "
+         "margins, matching and multi-format readers, forced code sets, invalid contents). Round trips of all 2 000 000 UPC-E numbers and all "
+         "10 000 000 EAN-8 payloads are exhaustive in the thorough tier (block events).",
+    design_ref="DESIGN.md section 6 C03",
+    note="Trusted: TLC, the 1-D spec modules, harness run-length projection; width tables pinned after structural validation. Sizes are a grid. "
+         "Known finding C03-upce-default-quiet-zone is open (UPC-E at the default margin).",
+    technique="TLA+ reference encoders/readers for nine 1-D symbologies; TLC model checking + trace validation of real write->read round trips + replay of TLC-built symbols")
+CHECKS["C11"] = dict(
+    category="model_checking",
+    text="spec/Aztec.tla is an independent reference encoder written from ISO/IEC 24778 (five code tables with latch/shift/binary-shift scripts, bit "
+         "stuffing, RS over GF(16/64/256/1024/4096), mode message, bull's eye, orientation marks, reference grid, layer spiral) plus the high-level "
+         "decode automaton. TLC model-checks the oracle (spiral is a bijection for all 36 sizes, every mode-message header is an RS codeword, all "
+         "scripts of <= 3(4) segments read back through stuffing), replays every enumerated script on the real HighLevelDecode, and generates per "
+         "symbol a random script filling it, fault sets up to floor(check/2) codewords placed through the spec's spiral, and the module matrix. The "
+         "harness decodes these directly and as rendered images (4 rotations, 2-5 px/module, clean and damaged); Trace_Aztec re-derives the matrix "
+         "and the damage from the spec and accepts only 'no error, text = script text'. Quick: 15 sizes; thorough: all 36.",
+    design_ref="DESIGN.md section 6 C11",
+    note="Trusted: TLC; Aztec.tla as embodiment of ISO/IEC 24778 (self-checked); harness projection. Not generated: FLG(n)/ECI. Known finding "
+         "C11-scale2-centre-estimate is open.",
+    technique="TLA+ reference encoder + decode automaton; TLC model checking; TLC-generated reference symbols and fault sets replayed on the real decoder/reader; trace validation")
+CHECKS["C15"] = dict(
+    category="model_checking",
+    text="spec/Charset.tla specifies the ECI registry (names, aliases, numbers), lookups, the 1/2/3-byte designator, the character-set guess as a "
+         "fold over bytes and the QR rules (designator only for hinted byte mode; segment charset = designator > decode hint > guess). TLC "
+         "model-checks registry consistency, the designator round trip and lookup outcome for all ECI numbers 0..999999, and over all class byte "
+         "strings <= 5(6) that well-formed non-ASCII UTF-8 is guessed UTF-8 and a designator or hint is never re-guessed; every explored string is "
+         "replayed on the real guess. Trace_Charset validates every call of the real code: names and aliases, blocks covering every ECI number, QR "
+         "write -> read with a CHARACTER_SET hint for every defined byte of the single-byte sets, seeded multi-byte and no-hint UTF-8 texts, "
+         "unrepresentable texts refused, unregistered / out-of-range ECI in a stream = format error.",
+    design_ref="DESIGN.md section 6 C15",
+    note="Trusted: TLC; Charset.tla; golang.org/x/text byte<->rune tables. 'Registered' means the sets the library exports (22; ISO-8859-6/8/10/11/14 "
+         "are unregistered in this port).",
+    technique="TLA+ registry/designator/guess-fold spec; TLC model checking (class strings, all ECI numbers); TLC-generated streams; trace validation")
+CHECKS["C08"] = dict(
+    category="model_checking",
+    text="MC_DM proves the Data Matrix reference itself: Table 7 structural laws for the 30 sizes, Annex F placement is a bijection onto every "
+         "mapping matrix with the fixed corner pattern exactly where required, every interleaved block (incl. the 10 blocks of 144x144) has zero "
+         "syndromes for the generator prod(x - 2^i) over 0x12D, randomisation formulas, capacity order. Trace validation compares, module by "
+         "module, symbols written by the real DataMatrixWriter for all 30 sizes (exact fills, forced sizes with long pad runs checked against the "
+         "253-state rule, mixed texts) with the reference built from the codewords; ErrorCorrection_EncodeECC200 on random data and unit vectors "
+         "(exposing every generator polynomial); DefaultPlacement on arbitrary codewords for all 30 mapping sizes; SymbolInfo attributes; and the "
+         "decoder's size table (via a verif-tagged accessor) against Table 7.",
+    design_ref="DESIGN.md section 6 C08",
+    note="Trusted: TLC; transcription of ISO/IEC 16022 in spec/DMTables.tla and DMPlacement.tla (self-checked by MC_DM; GF(256) tables are literals "
+         "proved against the shift-and-xor definition). Data codewords are taken from EncodeHighLevel (their correctness is C02).",
+    technique="TLA+ reference construction (ISO 16022 Table 7, RS parity, Annex F placement, finder) + TLC trace validation of writer / ECC / placement / tables")
 
 NOT_YET = {
 }
